@@ -8,6 +8,8 @@ from .. import paths
 from ..core import FUNC, call_attr, calls_in, chain, dotted, kwarg, text, walk_local, norm, is_const, const
 
 EXPLANATION = [
+    'C03.cis-disconnect: the CIS branch of on_hci_disconnect_command concludes locally through on_le_cis_disconnected (which also removes a peripheral-side entry), in the same block in which it tells the peer.',
+    'C03.abandoned-multiset: Host.abandoned_commands (one entry per response still owed) is created once and changed only by append / remove of a single opcode.',
     "C03.command-parse-guard: Controller.on_packet parses the raw packet under a catch-all handler that answers a command packet with a Command Status for the opcode read from the bytes; HCI_Object.format_fields (behind every packet's __str__, evaluated for the debug log before dispatch) takes max() over its rows only when there are rows.",
     'C03.address-equality: (shared with C06) Address.__eq__ compares the bytes and the public / random kind only: a pending LE Create Connection naming an identity-typed peer address matches the advertiser and is concluded.',
     'C03.status-helper: Controller._send_hci_command_status sends exactly one event and returns nothing: handlers that end with `return self._send_hci_command_status(...)` give the dispatcher nothing to turn into a second Command Status.',
@@ -1202,7 +1204,51 @@ def command_parse_guard(ctx):
             'format_fields takes max() of an empty sequence for an object whose only fields are empty lists: str(packet) raises, and packets are formatted for the debug log before they are handled, so such a command is never answered', p.loc(ff))
 
 
+def abandoned_multiset(ctx):
+    """Host.abandoned_commands holds one entry per response still owed: two callers may have given up on the same opcode.
+    It is changed only by append(opcode) and remove(opcode) (one entry at a time) and never rebuilt."""
+    R, p = ctx.r, ctx.p
+    rule = 'C03.abandoned-multiset'
+    ci = p.cls(HOST)
+    if ci is None:
+        R.bad(rule, HOST, 'anchor missing')
+        return
+    n = 0
+    for name, fn in sorted(ci.methods.items()):
+        for st in [x for x in walk_local(fn) if isinstance(x, (ast.Assign, ast.AugAssign, ast.AnnAssign)) and any(dotted(t) == 'self.abandoned_commands' for t in (x.targets if isinstance(x, ast.Assign) else [x.target]))]:
+            n += 1
+            R.check(name == '__init__', rule, f'{HOST}.{name} | {norm(st)[:50]}', 'created once', f'{name} rebuilds abandoned_commands (`{norm(st)[:60]}`): dropping every entry of an opcode forgets that a second response for it is still owed, and that late response is handed to the next caller', p.loc(st))
+        for c in [x for x in calls_in(fn) if isinstance(x.func, ast.Attribute) and dotted(x.func.value) == 'self.abandoned_commands']:
+            n += 1
+            R.check(c.func.attr in ('append', 'remove'), rule, f'{HOST}.{name} | abandoned_commands.{c.func.attr}', 'one entry added / removed', f'abandoned_commands.{c.func.attr}(...) changes more than one entry', p.loc(c))
+    R.check(n >= 3, rule, f'{HOST} | abandoned_commands', f'{n} uses', f'only {n} uses found')
+
+
+def cis_disconnect(ctx):
+    """Disconnecting a CIS from the host goes through the same local conclusion as a CIS terminated by the peer
+    (on_le_cis_disconnected), which also removes a peripheral-side entry: a hand-written completion in the command handler
+    leaves the entry behind, and the next set-up of the same CIS is reported under the stale handle."""
+    R, p = ctx.r, ctx.p
+    rule = 'C03.cis-disconnect'
+    fn = p.find(f'{CTRL}.on_hci_disconnect_command')
+    if fn is None:
+        R.bad(rule, f'{CTRL}.on_hci_disconnect_command', 'anchor missing')
+        return
+    tells = [c for c in calls_in(fn) if any(isinstance(x, ast.Call) and call_attr(x) == 'CisTerminateInd' for x in ast.walk(c)) and dotted(c.func) == 'self._notify_peer_of_teardown']
+    R.check(len(tells) == 1, rule, f'{CTRL}.on_hci_disconnect_command | CIS branch', 'one branch tells the peer with CisTerminateInd', f'{len(tells)} branches', p.loc(fn))
+    for c in tells:
+        st = c
+        while not isinstance(getattr(st, '_parent', None), (ast.If, ast.For, ast.While, ast.Try) + FUNC):
+            st = st._parent
+        par = st._parent
+        blk = par.body if st in par.body else par.orelse
+        local = [x for s_ in blk for x in calls_in(s_) if dotted(x.func) == 'self.on_le_cis_disconnected']
+        R.check(bool(local), rule, f'{CTRL}.on_hci_disconnect_command | local conclusion', 'the branch concludes through on_le_cis_disconnected', 'the CIS branch emits its own Disconnection Complete instead of calling on_le_cis_disconnected: a peripheral-side CIS entry is never removed, so a second set-up of the same (CIG, CIS) is reported under the old handle and the accepted CIS request is never concluded', p.loc(c))
+
+
 RULES = [
+    ('C03.cis-disconnect', cis_disconnect),
+    ('C03.abandoned-multiset', abandoned_multiset),
     ('C03.command-parse-guard', command_parse_guard),
     ('C03.address-equality', address_equality_rule),
     ('C03.status-helper', status_helper),
